@@ -29,6 +29,7 @@ type c02Input struct {
 	Fin       string `json:"fin"`   // ok | wrong
 	NoEncKey  bool   `json:"no_enc_key"`
 	Resume    string `json:"resume,omitempty"`     // "" | "cross-config": session created by an insecure config, offered by this one
+	Name      string `json:"name,omitempty"`       // the client's ServerName ("" = server.test): another DNS name or an IP literal
 	TimeShift int    `json:"time_shift,omitempty"` // resume: the verifying configuration's clock is this many years later
 }
 
@@ -74,12 +75,19 @@ func c02Chain(name string) (chain [][]byte, sig, enc *tk.Leaf) {
 func c02Verify(der []byte) bool { return c02VerifyAt(der, 0) }
 
 func c02VerifyAt(der []byte, shiftYears int) bool {
+	return c02VerifyName(der, shiftYears, "server.test")
+}
+
+func c02VerifyName(der []byte, shiftYears int, name string) bool {
+	if name == "" {
+		name = "server.test"
+	}
 	pk := tk.GetPKI()
 	c, err := x509.ParseCertificate(der)
 	if err != nil {
 		return false
 	}
-	_, err = c.Verify(x509.VerifyOptions{Roots: pk.CA.Pool, CurrentTime: tk.Now().AddDate(shiftYears, 0, 0), DNSName: "server.test", Intermediates: x509.NewCertPool()})
+	_, err = c.Verify(x509.VerifyOptions{Roots: pk.CA.Pool, CurrentTime: tk.Now().AddDate(shiftYears, 0, 0), DNSName: name, Intermediates: x509.NewCertPool()})
 	return err == nil
 }
 
@@ -92,6 +100,9 @@ func c02Run(in c02Input) (view [10]int, accepted bool, complete bool, delivered 
 	}
 	reg := tk.NewRegistry()
 	cc := tk.EPConfig{Suites: []uint16{in.Suite}, Ident: "cli", ServerName: "server.test", Insecure: in.Insecure}
+	if in.Name != "" {
+		cc.ServerName = in.Name
+	}
 	chain, sig, enc := c02Chain(in.Chain)
 	if in.NoEncKey { // presents the certificate but holds another key
 		enc = &tk.Leaf{DER: enc.DER, Cert: enc.Cert, Key: tk.GetPKI().Srv2Enc.Key}
@@ -167,10 +178,10 @@ func c02Run(in c02Input) (view [10]int, accepted bool, complete bool, delivered 
 	view[0] = len(chain)
 	view[1] = b2i(parseOK)
 	if len(chain) > 0 {
-		view[2] = b2i(c02Verify(chain[0]))
+		view[2] = b2i(c02VerifyName(chain[0], 0, in.Name))
 	}
 	if len(chain) > 1 {
-		view[3] = b2i(c02Verify(chain[1]))
+		view[3] = b2i(c02VerifyName(chain[1], 0, in.Name))
 	}
 	var sigPub *ecdsa.PublicKey
 	if len(certs) > 0 && certs[0] != nil {
@@ -274,6 +285,12 @@ func runC02(p params) error {
 						in.SKX = "other-params"
 					}
 					c02AddCase(out, "skx-"+in.SKX, in)
+				}
+				// the configured server name is another DNS name or an IP literal: the honest chain is not valid for it
+				for _, nm := range []string{"other.test", "192.0.2.10", "2001:db8::1", "[2001:db8::1]", "10.0.0.2."} {
+					in := base
+					in.Name = nm
+					c02AddCase(out, "name-"+map[bool]string{true: "ip", false: "dns"}[strings.ContainsAny(nm, ":") || nm[0] >= '0' && nm[0] <= '9'], in)
 				}
 				in := base
 				in.Fin = "wrong"
